@@ -52,3 +52,9 @@ CHECKS["C16"] = dict(
     technique="Verus loop invariant relating the code's scan to a recursive greedy spec function",
     design_ref="DESIGN.md §3 C16",
 )
+CHECKS["C20"] = dict(
+    text="Verus proofs on extracted text of MessageType::from_u8, FrameHeader::{new,validate,encode,decode,read_from,write_to}, Message::msg_type, Codec::{write_message,read_message} (layout, Ok<=>valid, round-trip lemma, 16 MiB allocation bound, totality), a complete Kani harness for the encoded layout on the compiled crate, and the CLI wrappers run_signature/run_delta/run_patch verified to establish every callee precondition for arbitrary file contents (no panic reachable from a hostile .sig/.delta). bincode value codecs are assumed and only exercised through the real binary by a twin run.",
+    note="Trusted: Verus+Z3, Kani+CBMC, extractor (R2/R3/R4/R5/R11), std::io contracts, shim modules for tokio::fs/bincode, *_le_bytes shims. Partial: serde/bincode value round trips and their allocation behaviour are not decided.",
+    technique="Verus contracts on extracted codec + CLI wrapper text; Kani harness; CLI twin on the real binary",
+    design_ref="DESIGN.md §3 C20",
+)
